@@ -301,9 +301,11 @@ def step (cfg : Cfg) (s : St) : Op → St × Out
     | none => (s, .ignored)
     | some k => if (s.idle k).contains c then (closeConn cfg s c, .none) else (s, .ignored)
   | .removeIdle c =>
+    -- `removeIdleConn` is called by `readLoop`'s exit handler, i.e. after `pc.close(...)`
     match s.ckey c with
     | none => (s, .ignored)
-    | some _ => let r := removeIdleLocked s c; (r.1, .bool r.2)
+    | some _ =>
+      if s.closed c then let r := removeIdleLocked s c; (r.1, .bool r.2) else (s, .ignored)
   | .idleTimeout c =>
     -- closeConnIfStillIdle
     if !s.lru.contains c then (s, .bool false)
